@@ -162,10 +162,17 @@ class Codec:
         msg = rawmsg[valid_idx:].decode("latin-1")
 
         trailer = msg.find(self.SOH + "10=")
+        next_start = msg.find(self.SOH + "8=FIX.")
+        if next_start != -1 and next_start < trailer:
+            # the next frame starts before this one has shown its CheckSum field
+            #   (garbled trailer): that CheckSum field is the next frame's
+            trailer = -1
         trailer_end = msg.find(self.SOH, trailer + 1) if trailer != -1 else -1
         if trailer_end != -1:
             # the frame ends with its own CheckSum field, whatever follows it
             next_msg = trailer_end + 1
+        elif next_start != -1:
+            next_msg = next_start + 1
         else:
             next_msg = msg[5:].find("8=FIX.")
             if next_msg != -1:
@@ -220,12 +227,19 @@ class Codec:
 
         # message looks incomplete (a frame that has its CheckSum field is complete,
         #   whatever its BodyLength claims)
-        if trailer_end == -1 and msg_length > len(rawmsg) - valid_idx:
+        if (
+            trailer_end == -1
+            and next_start == -1
+            and msg_length > len(rawmsg) - valid_idx
+        ):
             assert silent, "incomplete message"
             return (None, parsed_length, None)
 
         checksum_passed = False
-        if trailer_end != -1:
+        if trailer_end == -1 and next_start != -1:
+            # never completed: the next frame has started
+            parsed_length = frame_end
+        elif trailer_end != -1:
             parsed_length = frame_end
             # bytes between the BodyLength field and the CheckSum field
             body_length = next_msg - len(msg[0]) - len(msg[1]) - len(msg[-1]) - 3
